@@ -1,10 +1,10 @@
 CONSTANTS
   N = 3
   NK = 2
-  MaxConn = 3
+  MaxConn = 5
   MaxFrames = 99
   MaxCancels = 99
-  Fixed = FALSE
+  Fixes = {}
 SPECIFICATION TraceSpec
 CONSTRAINT HighWater
 INVARIANTS TypeOK Routed TerminalLocal NothingAfterTerminal SharedOnlyIfSameKey NoLeak NoStall
